@@ -1401,3 +1401,116 @@ def fam_userctx(tier, seed):
 
 
 FAMILIES["userctx"] = fam_userctx
+
+
+# ----------------------------------------------------------------------------- F-rand (random deep grammars)
+
+def rand_grammar(rnd, gid, tier):
+    """a random grammar mixing every feature the machine models, accepted and well-formed by construction:
+    rules only refer to later rules (no left recursion), lookahead bodies and closures get field-less /
+    consuming bodies, no overrides next to named fields, @string rules are not exported"""
+    P = "verif_common::oracles::"
+    nrules = rnd.randint(2, 4)
+    names = ["S"] + ["R%d" % i for i in range(1, nrules)]
+    fixed = ["T", "C", "D", "O", "A", "B"]          # always available helper rules (defined below)
+    fields = ["x", "y", "z"]
+    lits = ["a", "b", "ab", "c", "ba"]
+
+    def atom(i, allow_field, depth):
+        k = rnd.random()
+        if k < 0.22:
+            return Lit(rnd.choice(lits), ci=rnd.random() < 0.15)
+        if k < 0.30:
+            return Range("a", rnd.choice(["b", "c"]))
+        if k < 0.36:
+            return Eoi() if rnd.random() < 0.3 else Lit(rnd.choice(lits))
+        targets = names[i + 1:] + fixed + ["char"]
+        t = rnd.choice(targets)
+        if allow_field and rnd.random() < 0.75:
+            return Call(t, rnd.choice(fields), boxed=(rnd.random() < 0.2 and t != "char"))
+        return Call(t)
+
+    def consuming_atom(i, allow_field):
+        for _ in range(20):
+            a = atom(i, allow_field, 0)
+            if isinstance(a, Eoi) or (isinstance(a, Lit) and a.s == ""):
+                continue
+            return a
+        return Lit("a")
+
+    def expr(i, depth, allow_field):
+        if depth <= 0 or rnd.random() < 0.25:
+            return atom(i, allow_field, depth)
+        k = rnd.random()
+        if k < 0.32:
+            return Seq(*[expr(i, depth - 1, allow_field) for _ in range(rnd.randint(2, 3))])
+        if k < 0.56:
+            return Choice(*[expr(i, depth - 1, allow_field) for _ in range(rnd.randint(2, 3))])
+        if k < 0.68:
+            return Opt(expr(i, depth - 1, allow_field))
+        if k < 0.84:
+            # closure bodies must consume: a sequence starting with a consuming atom
+            body = Seq(consuming_atom(i, allow_field), *([expr(i, depth - 2, allow_field)] if depth > 1 and rnd.random() < 0.5 else []))
+            return Clo(body, plus=rnd.random() < 0.3)
+        if k < 0.92:
+            return (Neg if rnd.random() < 0.6 else Pos)(expr(i, depth - 1, False))
+        inc = [n for n in names[i + 1:]]
+        if inc and rnd.random() < 0.7:
+            return Inc(rnd.choice(inc)) if allow_field else expr(i, depth - 1, False)
+        return expr(i, depth - 1, allow_field)
+
+    depth = 3 if tier != "quick" else rnd.choice([2, 3])
+    rules = []
+    for i, n in enumerate(names):
+        body = expr(i, depth, True)
+        rules.append(Rule(n, body, export=(i == 0), position=rnd.random() < 0.5, no_skip_ws=rnd.random() < 0.5,
+                          memoize=(i > 0 and rnd.random() < 0.4)))
+    rules += [
+        Rule("T", Clo(Choice(Lit("a"), Lit("b")), plus=True), string=True, no_skip_ws=rnd.random() < 0.7, position=rnd.random() < 0.3),
+        CharRule("C", [("lit", "c"), ("range", "a", "b")]),
+        ExternRule("D", {"o": "digits", "path": P + "ext_digits", "nullable": False}),
+        Rule("O", Choice(Call("A", "@"), Call("B", "@", boxed=rnd.random() < 0.3)), no_skip_ws=rnd.random() < 0.5),
+        Rule("A", Lit("a"), position=rnd.random() < 0.3), Rule("B", Seq(Lit("b"), Opt(Lit("b"))), no_skip_ws=True),
+    ]
+    g = Grammar(gid, rules, root="S", maxlen=2 if tier == "quick" else 3, meta={"shape": "random"})
+    g.alpha = ["a", "b", "c", " ", "1"] if any(r.kind == "rule" and not r.no_skip_ws for r in rules) else ["a", "b", "c", "1"]
+    return g
+
+
+def fam_rand(tier, seed):
+    rnd = random.Random(seed * 7919 + 77)
+    n = 40 if tier == "quick" else 500
+    out = []
+    tries = 0
+    while len(out) < n and tries < n * 20:
+        tries += 1
+        g = rand_grammar(rnd, "rnd_%04d" % len(out), tier)
+        if not well_formed(g):
+            continue
+        # a field under a lookahead through an include would be rejected: lookahead bodies are generated field-less,
+        # but an include inside them could bring fields in - expr() never puts an include under a lookahead
+        g.meta["shape"] = "random#%d/%d" % (seed, len(out))
+        add_extras(g, rnd, 25 if tier == "quick" else 60, 3, 9)
+        out.append(g)
+    return out
+
+
+def fam_randmemo(tier, seed):
+    """the random grammars again with every @memoize mark flipped: variant vs variant (C05)"""
+    import copy
+    out = []
+    for g in fam_rand(tier, seed)[: (20 if tier == "quick" else 200)]:
+        for flip in (False, True):
+            h = copy.deepcopy(g)
+            h.id = "rm_%04d" % len(out)
+            for r in h.rules:
+                if r.kind == "rule" and not r.export and r.name not in ("T", "O", "A", "B"):
+                    r.memoize = (not r.memoize) if flip else r.memoize
+            h.meta = dict(g.meta, base=g.id, memo=[r.name for r in h.rules if r.kind == "rule" and r.memoize],
+                          probes={}, nrules=0, all_memo=False)
+            out.append(h)
+    return out
+
+
+FAMILIES["rand"] = fam_rand
+FAMILIES["randmemo"] = fam_randmemo
